@@ -547,6 +547,10 @@ type HistCase struct {
 	Ops   []ModeOp   `json:"ops"`
 	Ev    string     `json:"ev"` // mouse paste-start paste-end up
 	Mouse *MouseCase `json:"mouse,omitempty"`
+	// Pre > 0: the same event was already handed to the terminal once, after
+	// the first Pre operations (what is written for an event depends on the
+	// modes in force now, not on what was written for it before)
+	Pre int `json:"pre,omitempty"`
 }
 
 func (h HistCase) bytes() string {
@@ -593,9 +597,42 @@ func (h HistCase) final() map[int]bool {
 }
 
 func runHist(r *rig, h HistCase) string {
-	e, pm := emulator(h.bytes())
-	if e == nil {
-		return pm
+	var e *termdrive.T
+	var pm string
+	if h.Pre > 0 && h.Pre <= len(h.Ops) {
+		first := HistCase{Ops: h.Ops[:h.Pre]}
+		e, pm = emulator(first.bytes())
+		if e == nil {
+			return pm
+		}
+		var ev vaxis.Event
+		switch h.Ev {
+		case "mouse":
+			ev = vaxis.Mouse{Button: vaxis.MouseButton(h.Mouse.Button), Col: h.Mouse.Col, Row: h.Mouse.Row, EventType: vaxis.EventType(h.Mouse.Type)}
+		case "paste-start":
+			ev = vaxis.PasteStartEvent{}
+		case "paste-end":
+			ev = vaxis.PasteEndEvent{}
+		default:
+			ev = vaxis.Key{Keycode: vaxis.KeyUp}
+		}
+		if _, pm := update(e, ev); pm != "" {
+			e.Close()
+			return pm
+		}
+		rest := HistCase{Ops: h.Ops[h.Pre:]}
+		if b := rest.bytes(); b != "" {
+			if _, pm := e.Feed([]byte(b)); pm != "" {
+				e.Close()
+				return pm
+			}
+		}
+		e.TakeSettled()
+	} else {
+		e, pm = emulator(h.bytes())
+		if e == nil {
+			return pm
+		}
 	}
 	defer e.Close()
 	fin := h.final()
@@ -676,7 +713,11 @@ func TestModeHistories(t *testing.T) {
 				h.Ops = append(h.Ops, op)
 			}
 		}
-		h.Ev = rapid.SampledFrom([]string{"mouse", "mouse", "mouse", "paste-start", "paste-end", "up"}).Draw(rt, "ev")
+		h.Ev = rapid.SampledFrom([]string{"mouse", "mouse", "up", "mouse", "paste-start", "paste-end", "up"}).Draw(rt, "ev")
+		if k > 0 && rapid.IntRange(0, 2).Draw(rt, "delivered-before") != 0 {
+			h.Pre = rapid.IntRange(1, k).Draw(rt, "pre")
+			harness.R.Label(sub, "the same event was delivered once earlier in the history")
+		}
 		if h.Ev == "mouse" {
 			h.Mouse = &MouseCase{Button: rapid.SampledFrom([]int{0, 1, 2, 3, 64, 65}).Draw(rt, "btn"), Col: rapid.IntRange(0, 9).Draw(rt, "col"), Row: rapid.IntRange(0, 3).Draw(rt, "row"),
 				Type: int(rapid.SampledFrom([]vaxis.EventType{vaxis.EventPress, vaxis.EventRelease, vaxis.EventMotion}).Draw(rt, "type"))}
